@@ -215,7 +215,7 @@ def run_x86_calls(res, widths=(8, 16, 32, 64), masks=None, max_report=4):
     return stats
 
 
-def run_jit_programs(res, cases, levels, max_report=4, limited=False):
+def run_jit_programs(res, cases, levels, max_report=4, limited=False, safe=True):
     """Per-instruction certified validation of the machine code of whole programs: every generated
     program is compiled once (bytecode + machine code + code offset of each bytecode instruction);
     each instruction's code is disassembled and handed to the certified checker of its kind —
@@ -231,7 +231,7 @@ def run_jit_programs(res, cases, levels, max_report=4, limited=False):
     rep = 0
     kind_of = {"m": "mov", "a": "arith", "u": "arith", "x": "arith", "c": "arith", "i": "io", "o": "io", "z": "branch", "nz": "branch"}
     for level in levels:
-        outs = C.run_lines(hv, ["mcprog|%d|%d|%d|1|%s" % (c.w, level, 1 if limited else 0, P.hexs(c.src)) for c in cases])
+        outs = C.run_lines(hv, ["mcprog|%d|%d|%d|%d|%s" % (c.w, level, 1 if limited else 0, 1 if safe else 0, P.hexs(c.src)) for c in cases])
         jobs = []
         frames = []
         for c, o in zip(cases, outs):
@@ -312,7 +312,7 @@ def run_jit_programs(res, cases, levels, max_report=4, limited=False):
                                   {"case": c.to_json(), "backend": "jit", "level": lvl, "instruction": tk, "disassembly": di}, no_failing_input=True)
         verdicts = C.run_lines(driver, lines)
         for (j, di), v, line in zip(meta, verdicts, lines):
-            if v == "ok":
+            if v == ("ok-unchecked" if (line.startswith("x86mov") and not safe) else "ok"):
                 key = "limit" if line.startswith("x86limit") else kind_of[j[2][0]]
                 stats["accepted"][key] = stats["accepted"].get(key, 0) + 1
                 continue
